@@ -343,6 +343,11 @@ fn gen_c02(tier: &str, rng: &mut Rng, emit: &mut dyn FnMut(Op)) {
             _ => base.replace('o', "0"),
         }
     };
+    // a package name spelled exactly like the pattern is just another name
+    for p in &pats {
+        emit(Op::s("dewey.match", &[p, p]));
+        emit(Op::s("pattern.match", &[p, p]));
+    }
     let per_pat = if thorough { 60 } else { 6 };
     for p in &pats {
         // the base as the model would read it is unknown to the generator: derive from text
@@ -922,11 +927,17 @@ fn gen_c05(tier: &str, rng: &mut Rng, emit: &mut dyn FnMut(Op)) {
         }
     }
     // plain patterns
-    for p in ["foo-1.0", "a", "", "ab", "é", "a-b", "-", "A1"] {
+    for p in ["foo-1.0", "a", "", "ab", "é", "a-b", "-", "A1", "foo", "mutt"] {
         emit(Op::s("pattern.new", &[p]));
         for n in ["foo-1.0", "foo-1.1", "a", "", "ab", "b", "ac", "é", "a-b", "-", "A1", "a1", "A"] {
             emit(Op::s("pattern.match", &[p, n]));
             emit(Op::s("pattern.quick", &[p, n]));
+        }
+        // a plain pattern is not a PKGBASE: the name followed by a version does not match it
+        for tail in ["-1", "-1.0", "-0nb1", "-", "-a", "-1.0-2", "-[0-9]*", "1", " "] {
+            let n = format!("{}{}", p, tail);
+            emit(Op::s("pattern.match", &[p, &n]));
+            emit(Op::s("pattern.best", &[p, &n, p]));
         }
     }
 }
@@ -956,7 +967,9 @@ fn gen_c06(tier: &str, rng: &mut Rng, emit: &mut dyn FnMut(Op)) {
     let thorough = tier == "thorough";
     let pats = ["foo-[0-9]*", "foo>=1", "foo>1<3", "{foo,bar}-[0-9]*", "{foo,bar}>=1", "foo-1.0", "*-[0-9]*", "*", "{foo,bar,baz}-*", "f*",
         // patterns that accept names WITHOUT a '-' (their version is the empty text)
-        "foo*", "{foo,foo-[0-9]*}", "{foo,bar}*", "[fb]*", "fo?*"];
+        "foo*", "{foo,foo-[0-9]*}", "{foo,bar}*", "[fb]*", "fo?*",
+        // alternates one of whose expansions does not compile: the others still count
+        "foo-{[0-9]*,[0-9}", "{foo<5,bar,foo}>=1", "{foo-[0-9]*,bar-[}", "foo-{1*,[}"];
     let bases = ["foo", "bar", "baz", "fo", "foo-x", "foo1", "fooa", "foo1.0"];
     let vers = ["1", "1.0", "1.0.0", "1.0nb1", "1.1", "2", "2.0", "3", "0.5", "1a", "1.5", "1.0alpha", "1.0rc1", "1_0", "1.0pl", "10", "1.97", "1.0a",
         // pre = rc = -1 (one component each); characters that only LOOK like letters are ignored
@@ -968,6 +981,8 @@ fn gen_c06(tier: &str, rng: &mut Rng, emit: &mut dyn FnMut(Op)) {
         "99999999999999999999", "9223372036854775807", "1.0nb00000000000000000003",
         // file-name like endings are part of the version text
         "1.0.tgz", "1.0.tar.gz", "1.0 ", "1.0\n",
+        // a version may START with a modifier (below zero), next to the largest numbers
+        "alpha1", "rc1", "beta", "pre2", "9223372036854775806", "9223372036854775805", "9223372036854775804",
         // every '.' is a component of its own: empty fields between, before and after dots
         "1..2", ".5", "1.", "1..", "..1", "1.0.3", "1.0.4nb1", "1...", ".", "1._2", "1.0.2",
         // very long names (offsets beyond 16 bits)
@@ -1004,6 +1019,15 @@ fn gen_c06(tier: &str, rng: &mut Rng, emit: &mut dyn FnMut(Op)) {
     for v1 in vers {
         for v2 in vers {
             emit(Op::s("pattern.best", &["foo-[0-9.]*", &format!("foo-{}", v1), &format!("foo-{}", v2)]));
+        }
+    }
+    // hyphenated bases (also with "nb" or digits inside): the version is the text after the LAST '-'
+    for (b1, b2) in [("app-a", "app-b"), ("a-nb5x", "a-nb5x"), ("foo-1", "foo-1"), ("x-2.0-y", "x-2.0-y"), ("app-b", "app-a"), ("p-nb2", "p-nb3")] {
+        for v1 in ["1.0", "1.0nb2", "0.5", "2", "1.0alpha", "1"] {
+            for v2 in ["1.0", "1.0nb2", "0.5", "2", "1.0alpha", "1"] {
+                emit(Op::s("pattern.best", &["*-[0-9]*", &format!("{}-{}", b1, v1), &format!("{}-{}", b2, v2)]));
+                emit(Op::s("pattern.best", &["{app,a,foo,x,p}-*-[0-9]*", &format!("{}-{}", b1, v1), &format!("{}-{}", b2, v2)]));
+            }
         }
     }
     // a candidate without '-' has the empty version, whatever its name looks like
